@@ -742,6 +742,9 @@ def run(ctx):
     from .shared import file_digest_covers_stream
 
     file_digest_covers_stream(ctx, 'C01.R2')
+    from .shared import no_swallowed_source_errors
+
+    no_swallowed_source_errors(ctx, 'C01.R7')
     from .shared import leftover_from_finished_loop
 
     _rs = ctx.corpus.func('repository', 'Repository.restore')
